@@ -28,7 +28,11 @@ for name in names:
                            capture_output=True, text=True)
         keys = sorted(set(re.findall(r"key=(\S+)", p.stdout)))
         ok = p.returncode == 1 and "VIOLATION property=" in p.stdout
-        neutral = json.load(open(os.path.join(ROOT, "seeded", name, "meta.json"))).get("neutralised_by")
+        meta = json.load(open(os.path.join(ROOT, "seeded", name, "meta.json")))
+        neutral = meta.get("neutralised_by")
+        if meta.get("not_caught_by_design"):
+            print(f"{name}: {'NOT CAUGHT (by design, see meta.json)' if not ok else 'CAUGHT'} exit={p.returncode}")
+            continue
         if neutral and not ok:
             # a later fix: in /repo made this change harmless: its own demonstration must now pass WITH the change applied
             d = subprocess.run(["/venv/bin/python", os.path.join(ROOT, "seeded", name, "demo.py")], cwd=wt,
